@@ -187,33 +187,52 @@ def specEvalResults (fields : Fields) (tags : Tags) : List Expr → List String 
 
 def latest (results : List (String × Val)) (k : String) : Option Val := (results.reverse.find? (fun kv => kv.1 = k)).map (·.2)
 
-/-- Documented output of eval on (fields, tags). `refd` = the names referenced by some expression (keep(list) may name a
-referenced TAG, which then becomes a field — that is what "scope first" means in the code and we accept it). -/
+/-- The latest result of that name, if it is a string. -/
+def strResult (res : List (String × Val)) (t : String) : Option String :=
+  match latest res t with
+  | some (.str s) => some s
+  | _ => none
+
+/-- Tags: every name listed in `.tags()` must be a string result and becomes a tag; all other tags stay. -/
+def specEvalTags (c : EvalCfg) (res : List (String × Val)) (tags : Tags) : Option Tags :=
+  if c.tags.any (fun t => (strResult res t).isNone) then none else
+  some (tabulate (akeys tags ++ c.tags) (fun k => if c.tags.contains k then strResult res k else aget tags k))
+
+/-- What `keep(list)` finds under a name: a result of that name; else — for a name some expression referenced — the field,
+else the tag (as a string), else "missing" (that is what "scope first" means in the code and we accept it); else the
+original field. -/
+def specKeepAt (c : EvalCfg) (fields : Fields) (tags : Tags) (res : List (String × Val)) (k : String) : Option Val :=
+  match latest res k with
+  | some v => some v
+  | none =>
+    if (c.exprs.flatMap Expr.refs).contains k then
+      match aget fields k, aget tags k with
+      | some v, _ => some v
+      | none, some t => some (.str t)
+      | none, none => some .missing
+    else aget fields k
+
+/-- Fields by keep mode: `keep(list)` exactly the listed names (error when one cannot be found); `keep()` all original
+fields plus all results (results win); no keep: the results only, minus those turned into tags. -/
+def specEvalFields (c : EvalCfg) (res : List (String × Val)) (fields : Fields) (tags : Tags) : Option Fields :=
+  if c.keep then
+    if c.keepList ≠ [] then
+      if c.keepList.any (fun k => (specKeepAt c fields tags res k).isNone) then none
+      else some (tabulate c.keepList (specKeepAt c fields tags res))
+    else some (tabulate (akeys fields ++ c.as) (fun k => match latest res k with | some v => some v | none => aget fields k))
+  else some (tabulate c.as (fun k => if c.tags.contains k then none else latest res k))
+
+/-- Documented output of eval on (fields, tags); `none` = the point is dropped. -/
 def specEvalFT (c : EvalCfg) (fields : Fields) (tags : Tags) : Option (Fields × Tags) :=
   match specEvalResults fields tags c.exprs c.as [] with
   | none => none
   | some res =>
-    if c.tags.any (fun t => match latest res t with | some (.str _) => false | _ => true) then none else
-    let ntags := tabulate (akeys tags ++ c.tags) (fun k =>
-      if c.tags.contains k then (match latest res k with | some (.str s) => some s | _ => none) else aget tags k)
-    let refd := c.exprs.flatMap Expr.refs
-    let keepAt := fun (k : String) =>
-      match latest res k with
-      | some v => some v
-      | none =>
-        if refd.contains k then
-          match aget fields k, aget tags k with
-          | some v, _ => some v
-          | none, some t => some (.str t)
-          | none, none => some .missing
-        else aget fields k
-    if c.keep && c.keepList ≠ [] && c.keepList.any (fun k => (keepAt k).isNone) then none else
-    let nfields :=
-      if c.keep then
-        if c.keepList ≠ [] then tabulate c.keepList keepAt
-        else tabulate (akeys fields ++ c.as) (fun k => match latest res k with | some v => some v | none => aget fields k)
-      else tabulate c.as (fun k => if c.tags.contains k then none else latest res k)
-    some (nfields, ntags)
+    match specEvalTags c res tags with
+    | none => none
+    | some nt =>
+      match specEvalFields c res fields tags with
+      | none => none
+      | some nf => some (nf, nt)
 
 def specEval (c : EvalCfg) (ps : List Point) : List Point :=
   ps.filterMap (fun p => (specEvalFT c p.fields p.tags).map (fun r => { p with fields := r.1, tags := r.2 }))
